@@ -524,7 +524,7 @@ func (rc *RunCtx) c16Run(name string, args []string, dir string, p parCfg) *CmdO
 	if p.Chunk > 0 {
 		knobs["chunk"] = p.Chunk
 	}
-	return rc.RunCmd(CmdSpec{Name: name, Args: full, Dir: dir, Knobs: knobs, PoolPolicy: p.Pool, YieldDensity: p.Yield})
+	return rc.RunCmd(CmdSpec{Name: name, Args: full, Dir: dir, Knobs: knobs, PoolPolicy: p.Pool, YieldDensity: p.Yield, StderrNull: p.ErrNull})
 }
 
 func c16Grep(rc *RunCtx, t *simrt.Tape, dir string, p parCfg) {
@@ -574,7 +574,21 @@ func c16Grep(rc *RunCtx, t *simrt.Tape, dir string, p parCfg) {
 	in := filepath.Join(dir, "in"+ext)
 	os.WriteFile(in, text(recs, true), 0644)
 	if o.IDList != nil {
-		os.WriteFile(filepath.Join(dir, "ids.txt"), []byte(strings.Join(o.IDList, "\n")+"\n"), 0644)
+		// the list as an editor or a shell pipeline leaves it: the foreign identifier first or
+		// last, the last line with or without an end of line
+		list := append([]string(nil), o.IDList...)
+		if n := len(list); n > 1 {
+			// the foreign identifier (appended last by the generator) goes anywhere
+			k := t.Choose(n)
+			list[k], list[n-1] = list[n-1], list[k]
+		}
+		text := strings.Join(list, "\n")
+		if t.Choose(2) == 1 {
+			text += "\n"
+		} else {
+			rc.Probe("id_list_without_final_newline")
+		}
+		os.WriteFile(filepath.Join(dir, "ids.txt"), []byte(text), 0644)
 	}
 	args := o.args(dir)
 	if paired {
@@ -1148,7 +1162,7 @@ func runC16(rc *RunCtx) {
 func init() {
 	register(&Property{
 		ID:     "C16",
-		Random: func(tier string) int { return map[string]int{"quick": 420, "thorough": 30000}[tier] },
+		Random: func(tier string) int { return map[string]int{"quick": 700, "thorough": 30000}[tier] },
 		Run:    runC16,
 		Level:  "exploration",
 		Rule:   "each case = generated records and a drawn subset of options (single options, pairs, larger subsets; repeatable options 1-3 times; length and count values at and around existing values) for obigrep (-l -L -c -C -s -D -I -A -a --id-list -p with comparisons of annotations.count, annotations.sample and sequence.Len() joined by && || ! -v --save-discarded, and --paired-with x --paired-mode forward/reverse/and/or/andnot/xor), obiannotate (--clear --set-identifier --delete-tag -k -R --length -S --cut), obidistribute (-c -p --na-value --batches --hash -Z --fasta-output, and a second run with -A on existing files) and obimultiplex -u, run through the real main of the command in a child process under a drawn --max-cpu / --batch-size / schedule / pool policy; a reference interpreter of the options' documented meaning computes the kept records, the discarded records, the edited records, the output file of each record and the mate ranks. distinct = distinct (command, option vector, configuration, schedule signature); non-trivial = at least one step with >=2 runnable tasks",
